@@ -1615,9 +1615,12 @@ impl VirtualFileSystem for Memfs {
             None => return Err(PathError::does_not_exist(dst_dir).into()),
         }
         if let Some(x) = guard.get_entry(&dst_target) {
-            // A directory can't take the place of a file or link
-            if self._is_dir(&guard, &src_root) && !(x.is_dir() && !x.is_symlink()) {
+            // A directory can't take the place of a file or link, nor a file or link that of a directory
+            let dst_is_dir = x.is_dir() && !x.is_symlink();
+            if self._is_dir(&guard, &src_root) && !dst_is_dir {
                 return Err(PathError::is_not_dir(dst_target).into());
+            } else if !self._is_dir(&guard, &src_root) && dst_is_dir {
+                return Err(PathError::is_not_file(dst_target).into());
             }
             if let Some(ref files) = x.files {
                 if !files.is_empty() {
